@@ -239,7 +239,10 @@ func (c *compiler) compile(slice bigslice.Slice, part partitioner) (tasks []*Tas
 		}
 		// We now insert a set of tasks whose only purpose is (re-)shuffling
 		// the output from the previously completed task.
-		shuffleOpName := c.namer.New(fmt.Sprintf("%s_shuffle", result.tasks[0].Name.Op))
+		// The name must be unique to this invocation: task outputs are
+		// stored and located by name, and other invocations may re-shuffle
+		// the same result (with a different partitioning).
+		shuffleOpName := c.namer.New(fmt.Sprintf("inv%d_%s_shuffle", c.inv.Index, result.tasks[0].Name.Op))
 		tasks = make([]*Task, len(result.tasks))
 		for shard, task := range result.tasks {
 			tasks[shard] = &Task{
